@@ -266,6 +266,14 @@ def wire_check(run, key_prefix, compress_params=None):
 
 
 def delivery_check(run, key_prefix):
+    # root causes first: an exception that escaped to the framework explains any missing delivery
+    for side in run.sides:
+        if side.ep.escaped:
+            raise Violation(key_prefix + "|exception-escaped|" + exc_key(side.ep.escaped[0]), repr(side.ep.escaped[0]))
+    if run.d.loop_errors:
+        ctx = run.d.loop_errors[0]
+        exc = ctx.get("exception") if isinstance(ctx, dict) else None
+        raise Violation(key_prefix + "|loop-exception" + ("|" + exc_key(exc) if exc is not None else ""), repr(ctx)[:500])
     for idx in (0, 1):
         got = run.sides[1 - idx].msgs()
         exp = run.sent[idx]
@@ -279,14 +287,10 @@ def delivery_check(run, key_prefix):
                                 (got[first][0], len(got[first][1]), got[first][1][:24]) if first < len(got) else None,
                                 (exp[first][0], len(exp[first][1]), exp[first][1][:24]) if first < len(exp) else None))
     for side in run.sides:
-        if side.ep.escaped:
-            raise Violation(key_prefix + "|exception-escaped|" + exc_key(side.ep.escaped[0]), repr(side.ep.escaped[0]))
         if side.count("close"):
             raise Violation(key_prefix + "|unexpected-close", repr([e for e in side.log if e[0] == "close"]))
         if side.ep.drop_requested:
             raise Violation(key_prefix + "|unexpected-drop", "side dropped the transport: %r" % (side.log[-3:],))
-    if run.d.loop_errors:
-        raise Violation(key_prefix + "|loop-exception", repr(run.d.loop_errors[0])[:500])
 
 
 def run_modes(case, key_prefix, modes=("drawn", "all", "bytewise"), extra=None, compress_params=None):
